@@ -122,10 +122,15 @@ def run_one(spec):
     res = dict(kind=kind, spec=spec)
     t0 = time.time()
     if kind == 'close_join':
+        # threads=False: a pool without helper threads (an external event loop's pool); join() then
+        # runs the handlers' shutdown code itself and must drain the results of jobs still running
         pool = bp.Pool(spec.get('n', 2), maxtasksperchild=spec.get('maxtasks'),
-                       timeout=spec.get('hard'), threads=True)
+                       timeout=spec.get('hard'), threads=spec.get('threads', True))
         pids = [p.pid for p in pool._pool]
-        rs = [pool.apply_async(t_double, (i,)) for i in range(spec.get('applies', 4))]
+        if spec.get('sleep'):
+            rs = [pool.apply_async(t_sleep, (spec['sleep'],)) for i in range(spec.get('applies', 4))]
+        else:
+            rs = [pool.apply_async(t_double, (i,)) for i in range(spec.get('applies', 4))]
         mr = pool.map_async(t_double, list(range(spec['map']))) if spec.get('map') else None
         im = pool.imap(t_double, list(range(spec['imap']))) if spec.get('imap') else None
         time.sleep(spec.get('before_close', 0.0))
@@ -138,7 +143,7 @@ def run_one(spec):
         res['join_s'] = round(time.time() - t1, 2)
         allpids = set(pids) | {p.pid for p in pool._pool}
         res['results'] = [outcome(r) for r in rs]
-        res['expected'] = [['ok', 2 * i] for i in range(spec.get('applies', 4))]
+        res['expected'] = [['ok', spec['sleep'] if spec.get('sleep') else 2 * i] for i in range(spec.get('applies', 4))]
         if mr is not None:
             res['map'] = outcome(mr)
             res['map_expected'] = ['ok', [2 * i for i in range(spec['map'])]]
